@@ -356,6 +356,95 @@ def check_greedy_layouts(ctx, cirq):
                 ctx.report_witness(f'unroll:{uname}', f'{uname}: the order of the operations on some qubit differs from the circuit read with every sub-circuit in place', dict(rep, impl_out=[repr(out)[:2500]], spec_out=[want]))
 
 
+def check_greedy_classical(ctx, cirq):
+    """the one-level unrollers on classical circuits (X gates, measurements, X gates controlled by the latest record of a key) with
+    sub-circuits that measure or read keys also used outside: the records of the unrolled circuit are those of the program read in order
+    (computed here on bits), i.e. no operation is placed in front of - or next to - a measurement it depends on"""
+    rng = ctx.substream('greedy-classical')
+    n = 40 if ctx.tier == 'quick' else 800
+    qs = cirq.LineQubit.range(3)
+    for it in range(n):
+        def rand_op(avail, keys):
+            q = rng.choice(avail)
+            r = rng.random()
+            if r < 0.35:
+                return ('x', q, None)
+            if r < 0.7 or not keys:
+                k = rng.choice(['m', 'n'])
+                keys.add(k)
+                return ('meas', q, k)
+            return ('cx', q, rng.choice(sorted(keys)))
+
+        def build(o):
+            kind, q, k = o
+            return cirq.X(q) if kind == 'x' else cirq.measure(q, key=k) if kind == 'meas' else cirq.X(q).with_classical_controls(k)
+
+        keys, moments, flat = set(), [], []
+        for _ in range(rng.randint(3, 6)):
+            free = list(qs)
+            ops = []
+            if rng.random() < 0.5:
+                sub_qs = rng.sample(free, rng.choice([1, 2]))
+                body = [rand_op(sub_qs, keys) for _ in range(rng.randint(1, 3))]
+                try:
+                    ops.append(cirq.CircuitOperation(cirq.FrozenCircuit(cirq.Circuit([build(o) for o in body], strategy=cirq.InsertStrategy.NEW))))
+                except ValueError:
+                    continue
+                flat += body
+                free = [x for x in free if x not in ops[-1].qubits]
+            # operations of one moment must not depend on each other through a key
+            moment_keys = {p[2] for p in (body if ops else []) if p[2]}
+            for x in free:
+                if rng.random() < 0.45:
+                    o = rand_op([x], keys)
+                    if o[2] is not None and o[2] in moment_keys:
+                        continue
+                    moment_keys.add(o[2])
+                    ops.append(build(o))
+                    flat.append(o)
+            if ops:
+                moments.append(ops)
+        if it == 0:  # corpus: a measurement inside the sub-circuit and an operation controlled by its key in the next moment, on other qubits
+            moments = [[cirq.measure(qs[2], key='m')], [cirq.CircuitOperation(cirq.FrozenCircuit(cirq.X(qs[0]), cirq.measure(qs[0], key='m')))], [cirq.X(qs[1]).with_classical_controls('m')], [cirq.measure(qs[1], key='out')]]
+            flat = [('meas', qs[2], 'm'), ('x', qs[0], None), ('meas', qs[0], 'm'), ('cx', qs[1], 'm'), ('meas', qs[1], 'out')]
+        try:
+            circuit = cirq.Circuit(cirq.Moment(m) for m in moments)
+        except ValueError:
+            continue
+        if not any(isinstance(o.untagged, cirq.CircuitOperation) for o in circuit.all_operations()) or not cirq.is_measurement(circuit):
+            continue
+        # the program on bits
+        bits, rec = {q: 0 for q in qs}, {}
+        ok = True
+        for kind, q, k in flat:
+            if kind == 'x':
+                bits[q] ^= 1
+            elif kind == 'meas':
+                rec.setdefault(k, []).append(bits[q])
+            elif k not in rec:
+                ok = False
+                break
+            elif rec[k][-1]:
+                bits[q] ^= 1
+        if not ok:
+            continue
+        want = {k: v for k, v in rec.items()}
+        for uname in ('wrapped', 'unroll_circuit_op', 'unroll_circuit_op_greedy_earliest', 'unroll_circuit_op_greedy_frontier'):
+            ctx.count('check', 'classical-layout:' + uname)
+            ctx.case(['greedy-classical', uname, repr(circuit)], True)
+            rep = {'lines': [{'transformer': uname, 'circuit': repr(circuit)}], 'theorem_or_correspondence': 'records of the program read in order'}
+            try:
+                out = circuit if uname == 'wrapped' else getattr(cirq, uname)(circuit, tags_to_check=None)
+                r = cirq.Simulator(seed=1).run(out, repetitions=1).records
+                got = {k: [int(x) for x in v[0].reshape(-1)] for k, v in r.items()}
+            except (ValueError, IndexError, KeyError) as e:
+                got = f'{type(e).__name__}: {e}'[:200]
+            if got != want:
+                dep = ':key-dependency' if uname.endswith('frontier') else ''
+                ctx.report_witness(f'unroll:{uname}{dep}', f'{uname}: the unrolled circuit records other values than the program read in order (an operation was placed in front of or next to a measurement of a key it uses)',
+                                   dict(rep, impl_out=[got, repr(out)[:1500] if not isinstance(got, str) else ''], spec_out=[want]))
+
+
 def records_key(records):
     return tuple(sorted((k, tuple(tuple(tuple(int(x) for x in inst) for inst in rep) for rep in v)) for k, v in records.items()))
 
@@ -381,6 +470,7 @@ def run(ctx: common.Run):
         ctx.report_unproved('lean-build', f'{failing}', {'theorem_or_correspondence': failing})
         return
     check_greedy_layouts(ctx, cirq)
+    check_greedy_classical(ctx, cirq)
     n = 120 if ctx.tier == 'quick' else 1500
     rng = ctx.substream('nest')
     cases, reqs = [], []
